@@ -3175,7 +3175,9 @@ impl Server {
                 let timeout_str = String::from_utf8_lossy(bytes);
                 // Try parsing as float first to handle both integer and decimal values
                 match timeout_str.parse::<f64>() {
-                    Ok(t) if t < 0.0 => return Ok(RespFrame::error("ERR timeout is not a float or out of range")),
+                    // NaN, infinity and absurdly long timeouts cannot be turned into a Duration
+                    // (from_secs_f64 panics) nor added to an Instant
+                    Ok(t) if t.is_nan() || t < 0.0 || t > 9.0e15 => return Ok(RespFrame::error("ERR timeout is not a float or out of range")),
                     Ok(0.0) => None, // 0 means block forever
                     Ok(t) => Some(std::time::Duration::from_secs_f64(t)),
                     Err(_) => return Ok(RespFrame::error("ERR timeout is not a float or out of range")),
@@ -3206,7 +3208,7 @@ impl Server {
         }
         
         // No data available, register as blocked
-        let deadline = timeout.map(|t| Instant::now() + t);
+        let deadline = timeout.and_then(|t| Instant::now().checked_add(t));
         self.blocking_manager.register_blocked(db_index, conn_id, keys.clone(), BlockingOp::BLPop, deadline)?;
         
         // Move connection to blocked state
@@ -3234,7 +3236,9 @@ impl Server {
                 let timeout_str = String::from_utf8_lossy(bytes);
                 // Try parsing as float first to handle both integer and decimal values
                 match timeout_str.parse::<f64>() {
-                    Ok(t) if t < 0.0 => return Ok(RespFrame::error("ERR timeout is not a float or out of range")),
+                    // NaN, infinity and absurdly long timeouts cannot be turned into a Duration
+                    // (from_secs_f64 panics) nor added to an Instant
+                    Ok(t) if t.is_nan() || t < 0.0 || t > 9.0e15 => return Ok(RespFrame::error("ERR timeout is not a float or out of range")),
                     Ok(0.0) => None, // 0 means block forever
                     Ok(t) => Some(std::time::Duration::from_secs_f64(t)),
                     Err(_) => return Ok(RespFrame::error("ERR timeout is not a float or out of range")),
@@ -3265,7 +3269,7 @@ impl Server {
         }
         
         // No data available, register as blocked
-        let deadline = timeout.map(|t| Instant::now() + t);
+        let deadline = timeout.and_then(|t| Instant::now().checked_add(t));
         self.blocking_manager.register_blocked(db_index, conn_id, keys.clone(), BlockingOp::BRPop, deadline)?;
         
         // Move connection to blocked state
